@@ -5,6 +5,7 @@ CFG = {
                           "htqc_view_monotone", "view_change_justified", "newView_self_justifying", "timeout_self_justifying",
                           "commit_is_high_vote", "justification_prefers_commit_on_tie", "no_panic",
                           "accepted_proposal_conforms", "reachable_wf", "reachable_step",
+                          "tqcBelow_preserved", "persisted_tqcBelow", "tqcBelow_restart", "reachable_tqcBelow",
                           "loop_refines_steps", "loop_states_wf", "view0_bootstrap", "no_bootstrap_otherwise", "timer_fires",
                           "deadline_rule", "message_keeps_deadline", "flood_cannot_postpone", "quiesce_blocks", "accounting",
                           "every_processed_message_is_acked_once", "dropped_never_acked", "processing_order"],
